@@ -300,6 +300,13 @@ class Gen:
             # ANSI-coded input as a value source (parsing itself is C02, not claimed)
             op['text'] = '\x1b[%sm%s\x1b[%sm%s' % (r.choice(['1', '31', '1;31', '38;5;200', '4;34']), self.text(1, 4),
                                                     r.choice(['0', '', '22', '39', '32']), self.text(0, 3))
+            x = r.random()
+            if x < 0.15:
+                # sequences that are not SGR stay in the text; unterminated ones too
+                op['text'] = self.text(0, 3) + r.choice(['\x1b[2J', '\x1b[10A', '\x1b[', '\x1b[1;3', '\x1b[1;31', '\x1b', '\x1b[ 1']) + \
+                    r.choice(['', self.text(0, 3), '1;2', ' '])
+            elif x < 0.25:
+                op['text'] += r.choice(['\x1b[', '\x1b[4', '\x1b[2K'])
             op['st'] = None
             op.pop('star', None)
         return op
@@ -356,7 +363,10 @@ class Gen:
         return {'op': 'clip', 'r': s, 'a': a, 'b': b, 'd': self.slot(), 'ip': self.ip()}
 
     def g_iter(self, world):
-        return {'op': 'iter', 'r': self.recv_slot(world), 'd': self.slot(), 'pick': self.rng.randrange(8)}
+        op = {'op': 'iter', 'r': self.recv_slot(world), 'd': self.slot(), 'pick': self.rng.randrange(8)}
+        if self.rng.random() < 0.4:
+            op['mutate'] = self.rng.choice([1, 2, 3])
+        return op
 
     def g_add(self, world):
         s = self.recv_slot(world, maxlen=self.MAXLEN)
@@ -460,6 +470,10 @@ class Gen:
             new = t[:r.randint(0, len(t))]
         else:
             new = self.text(0)
+        if r.random() < 0.05:
+            # assign_str takes the text as is: escape sequences become part of the base string
+            k = r.randint(0, len(new))
+            new = new[:k] + r.choice(['\x1b[1m', '\x1b[31m', '\x1b[0m', '\x1b[2J', '\x1b[']) + new[k:]
         return {'op': 'assign', 'r': s, 'text': new}
 
     def g_setansi(self, world):
